@@ -204,6 +204,20 @@ class C19(core.Check):
                 cases.append(dict(tag=tag, prop=prop, state=['dot', tx]))
             if self.tier == 'thorough' or rng.random() < 0.3:
                 cases.append(dict(tag=tag, prop=prop, state=['dotbool', rng.random() < 0.5]))
+        # the cells with a value rule of their own (numeric clamps and defaults, enumerations): their boundary texts in both tiers,
+        # through the HTML attribute and through dot-assignment.  Appended after the sampled families, which stay as they were.
+        if self.tier != 'thorough':
+            from AdvancedHTMLParser import constants as K
+            ruled = set(K.TAG_ITEM_ATTRIBUTES_SPECIAL_VALUES) | set(K.TAG_ITEM_ATTRIBUTES_SPECIAL_VALIDATION)
+            bounds = ['0', '00', '+0', '-0', ' 0 ', '1', '-1', '1000', '1001', '65534', '65535', '99999999999999999999', '007', ' 7 ']
+            nb = 0
+            for tag, prop in cs_:
+                if prop in ruled:
+                    for tx in bounds:
+                        cases.append(dict(tag=tag, prop=prop, state=['html', tx]))
+                        cases.append(dict(tag=tag, prop=prop, state=['dot', tx]))
+                        nb += 2
+            self.stats.update(boundary_cases=nb)
         self.stats.update(cells=len(cs_), corpus=len(CORPUS))
         return cases
 
